@@ -30,8 +30,35 @@ EXTRA = [
 ]
 
 
+CMP_OPS = ["==", "!=", "<", ">", "<=", ">=", "<>", "in", "contains"]
+LOG_OPS = ["&&", "||", "and", "or"]
+
+
+def grouping_grid():
+    """Every way of nesting one infix expression inside another, on either side, with and without a
+    leading negation (complete over the operator tables); the compiler decides which are accepted."""
+    out = []
+    ops = CMP_OPS + LOG_OPS
+    for o1 in ops:
+        for o2 in ops:
+            out.append(f"$[?(@.a {o1} @.b) {o2} @.c]")
+            out.append(f"$[?@.a {o1} (@.b {o2} @.c)]")
+            out.append(f"$[?@.a {o1} @.b {o2} @.c]")
+            out.append(f"$[?!(@.a {o1} @.b) {o2} @.c]")
+            out.append(f"$[?@.a {o1} !(@.b {o2} @.c)]")
+    for o1 in ops:
+        out.append(f"$[?!(@.a {o1} @.b)]")
+        out.append(f"$[?(@.a {o1} @.b)]")
+        out.append(f"$[?@.a {o1} [1, 2]]")
+        out.append(f"$[?(@.s =~ /a/) {o1} @.c]")
+        out.append(f"$[?@.c {o1} (@.s =~ /a/)]")
+        out.append(f"$[?count(@.*) {o1} length(@.a)]")
+        out.append(f"$[?match(@.s, 'a') {o1} (@.a {o1} @.b)]")
+    return out
+
+
 def gen(ctx):
-    texts = qpool.all_texts() + EXTRA + qpool.generated_texts(ctx.rng, 500 if ctx.tier == "quick" else 12000)
+    texts = qpool.all_texts() + EXTRA + grouping_grid() + qpool.generated_texts(ctx.rng, 500 if ctx.tier == "quick" else 12000)
     # fuzz: mutate accepted strings
     base = list(texts)
     import jsonpath
